@@ -203,6 +203,16 @@ def check_admin(world, req, rec, acc, queue_order, real=False):
                 probs.append(('development-branch-deleted-with-live-'
                               'stabilization', '%s deleted, %s alive'
                               % (arg, live)))
+        # a queue whose destination no longer exists is ill-formed (every
+        # later queue evaluation trips over it)
+        left = [n for n in a.refs if n.startswith('q/') and
+                not n.startswith('q/w/') and
+                (n == 'q/' + ver or (arg.startswith('hotfix/') and
+                                     n.startswith('q/%s.' % ver)))]
+        if left:
+            probs.append(('branch-deleted-but-its-queue-stays',
+                          '%s deleted, %s still on the remote' % (arg,
+                                                                  left)))
         tag = ver + ('.archived_hotfix_branch'
                      if arg.startswith('hotfix/') else '')
         tsha = world.rev('refs/tags/%s^{commit}' % tag)
